@@ -8,6 +8,10 @@
     size of each subtree — and must therefore not also be indexed by an affine function of the
     loop counter or of a sibling count (`ids[i-1]`, `ids[first+i+1]`, `ids[len-1]`), which assumes
     unit stride: the two index expressions express contradictory beliefs about where sibling i lives.
+ R4 stride counts every item: object ids are pre-allocated for all outline items depth-first, open or closed, so the
+    function that advances the sibling cursor by the size of a subtree must count every descendant: neither it nor anything it
+    calls may read the item's `open` flag (the *visible* count, which skips the children of closed items, is a different
+    quantity that belongs in /Count only).
 Not decided: the counts' values, destination page resolution.
 """
 from .. import lib as L
@@ -19,6 +23,7 @@ W = "writer::pdf_writer::PdfWriter::<W>::"
 
 
 def run(ctx):
+    r4_stride_counts_all(ctx)
     facts = ctx.facts
     od = ctx.fn("structure::outline::outline_item_to_dict", "anchor")
     keys = set(s for b, s, c in L.str_args(od, ["Dictionary::set"]))
@@ -135,3 +140,41 @@ def run(ctx):
             ctx.violation("R3", key, "no indexed reads of the id table found (anchor changed)", fn.where())
         else:
             ctx.ok("R3", key, "index kinds: %s" % {k: len(v) for k, v in kinds.items()}, fn.where())
+
+
+def r4_stride_counts_all(ctx):
+    from .. import flow as FL
+    facts = ctx.facts
+    fn = ctx.fn("writer::pdf_writer::PdfWriter::<W>::outline_sibling_indices", "R4")
+    fl = FL.flow(fn)
+    n = 0
+    for b, c, a, d, t, u in fn.calls():
+        f2 = facts.fns.get(c.get("r")) if isinstance(c, dict) else None
+        if f2 is None or "OutlineItem" not in " ".join(f2.params or []) + (f2.self_ty or ""):
+            continue
+        n += 1
+        key = "outline_sibling_indices:stride:%s" % L.short(f2.id)
+        reads_open = None
+        todo, seen = [f2.id], set()
+        while todo:
+            k = todo.pop()
+            if k in seen or k not in facts.fns:
+                continue
+            seen.add(k)
+            g = facts.fns[k]
+            for bb, blk in enumerate(g.blocks):
+                for st in blk[0]:
+                    for pl in FL.rvalue_places(st[2]) + [FL.op_place(o) for o in FL.rvalue_operands(st[2]) if FL.op_place(o)]:
+                        if any(isinstance(p, list) and p[0] == "f" and p[2] == "open" for p in pl[1]):
+                            reads_open = g.where(bb)
+            for c2 in facts.callees.get(k, ()):
+                if c2.startswith("structure::outline::"):
+                    todo.append(c2)
+        if reads_open:
+            ctx.violation("R4", key, "the sibling cursor is advanced by %s, which depends on the item's `open` flag (%s): ids are "
+                          "pre-allocated for every item whether its parent is open or closed, so after a closed item with children the "
+                          "/Next, /Prev, /First and /Last of the following siblings point into that item's hidden subtree"
+                          % (L.short(f2.id), reads_open), fn.where(b))
+        else:
+            ctx.ok("R4", key, "the stride function counts every descendant (does not read `open`)", fn.where(b))
+    ctx.floor("R4", "subtree-size calls in outline_sibling_indices", n, 1)
